@@ -256,6 +256,22 @@ CHECKS['C15'] = {
     ],
 }
 
+CHECKS['C12'] = {
+    'level': 'fault_enumeration',
+    'technique': 'fault-injection property testing: generated Message sequences through the real tunnel gateways over an in-memory datagram transport with generated loss/duplication/reordering/replay plans (exhaustive over {deliver,drop,duplicate,swap}^n for packet sequences of <= 6, sampled beyond) and would-block writes; membership oracle for safety, equality oracle for fault-free completeness',
+    'level_text': ('For every generated configuration (tunnel kind, MTU from the minimum up, slave gateway, compression level, 1-3 senders by source address, message-id counter started just below 2^32) the packets a sender emits are delivered to fresh receivers under fault plans: '
+                   'all 4^n plans for sequences of up to 6 packets, sampled plans (incl. replay of old packets) for longer ones. Safety is checked on every plan: each delivered Message is bit-identical to one that sender sent. Completeness is checked on fault-free plans, also with would-block (0-byte) writes on the sending side. Held = no plan violated either clause.'),
+    'level_note': ('Trusted: the in-memory datagram transport. The mini tunnel drops a Message larger than one packet payload by design (modelled). With a slave gateway on a packet transport Messages are kept below the compile-time UDP payload size while known finding F25 stands (counted).'),
+    'rule': ('Byte-decoded cases; fault mode = first bytes. Non-trivial: (sampled) a fault hit a sequence containing a multi-fragment Message or >= 3 packets; (exhaustive) >= 2 packets with a multi-fragment Message or several senders; (fault-free) a Message spanning >= 3 packets, or >= 2 packets for the mini tunnel. '
+             'Distinct: hash of (configuration, sent bytes, fault mode). exhaustive_fault_plans counts the enumerated plans.'),
+    'assumptions': [],
+    'evidence_extra': lambda pt: {'exhaustive_fault_plans_enumerated': pt['c12_tunnel']['classes'].get('exhaustive_fault_plans', 0), 'exhaustive_note': 'each exhaustive plan set enumerates all 4^n {deliver,drop,duplicate,swap-with-next} plans of one generated packet sequence (n <= 6); the space of sequences itself is sampled, so exhaustive=false overall'},
+    'targets': [
+        {'name': 'c12_tunnel', 'src': ['harness/C12_tunnel.cpp'], 'quick_n': 300000, 'thorough_n': 5000000, 'maxlen': 400, 'min_nontrivial': 50000, 'budget': 60,
+         'class_floors': {'mini_tunnel': 20000, 'packet_tunnel': 20000, 'exhaustive_plan_sets': 3000, 'message_id_wraparound': 3000, 'several_senders': 20000, 'with_slave_gateway': 20000, 'mode_fault_free_with_would_block_writes': 10000}},
+    ],
+}
+
 
 def setup():
     t0 = time.time()
